@@ -8,6 +8,7 @@ import Driver.C12
 import Driver.C13
 import Driver.C07
 import Driver.C18
+import Driver.Sched
 
 open Driver
 
@@ -44,6 +45,12 @@ def main (args : List String) : IO UInt32 := do
     return 0
   | ["c07"] =>
     forLines stdin fun l => stdout.putStrLn (c07Line (fields l))
+    return 0
+  | ["sched"] =>
+    forLines stdin fun l => stdout.putStrLn (schedLine (fields l))
+    return 0
+  | ["schedinv"] =>
+    forLines stdin fun l => stdout.putStrLn (schedInvLine (fields l))
     return 0
   | ["c18"] =>
     forLines stdin fun l => stdout.putStrLn (c18Line (fields l))
